@@ -142,7 +142,8 @@ def job_dj(a):
     want = Fraction(1) if kind == "constant" else Fraction(0)
     dec_ok = True
     try:
-        dec_ok = alg.decode_output("0" * n) == "Constant" and (n == 0 or alg.decode_output("1" * n) == "Balanced")
+        # every reading: all zeros <-> "Constant", anything else "Balanced"
+        dec_ok = all(alg.decode_output(format(y, f"0{n}b")) == ("Constant" if y == 0 else "Balanced") for y in range(1 << n))
     except Exception:  # noqa
         dec_ok = False
     if p0 == want and dec_ok:
